@@ -36,7 +36,9 @@
 (*               (HRead, HStat)                                            *)
 (*   get         ManifestGet: one critical section (GRead, GFile)          *)
 (*   list        ocidir/tag.go:TagList: one readIndex                      *)
-(* conf.init names the initial index (InitIdx), including foreign ones.    *)
+(* conf.init names the initial content (InitIdx; the same names and the    *)
+(* same entries as the table `inits` of harness/cmd/c06drv), including     *)
+(* indexes written by other tools.                                         *)
 (* conf.fixed = FALSE models tagDelete / indexSet as they are at HEAD      *)
 (* (forward range with slices.Delete - TDLoopHead -, exact match on        *)
 (* ref.name); TRUE models the repaired code of findings/C06-1.patch (every *)
@@ -59,6 +61,8 @@
 (*                 stale answer)                                           *)
 (*   Quiescent     when nothing is in flight no placeholder is left        *)
 (*   CacheCoherent the manifest cache holds no deleted manifest            *)
+(*   GetStable / HeadStable  a layout read never answers what the          *)
+(*                 reference model did not hold at some moment of the call *)
 (***************************************************************************)
 EXTENDS TagsMap, Integers, TLC
 CONSTANTS Procs,     \* client goroutines
@@ -100,8 +104,10 @@ RefOf(o) == IF o.t # "" THEN o.t ELSE o.m
 (* ending in :tag), "none" (no ref.name)                                                       *)
 E(k, t, d) == [k |-> k, t |-> t, d |-> d]
 InitIdx(name) ==
-  CASE name = "shared" -> <<E("tag", "t1", "m1"), E("tag", "t2", "m1")>>
+  CASE name = "pair" -> <<E("tag", "t1", "m1"), E("tag", "t2", "m1")>>
+    [] name = "shared" -> <<E("tag", "t1", "m1"), E("tag", "t2", "m1"), E("tag", "t3", "m2")>>
     [] name = "dupadj" -> <<E("tag", "t1", "m1"), E("tag", "t1", "m2"), E("tag", "t2", "m2")>>
+    [] name = "dupsame" -> <<E("tag", "t2", "m2"), E("tag", "t2", "m2"), E("tag", "t1", "m1")>>
     [] name = "dupsep" -> <<E("tag", "t1", "m1"), E("tag", "t2", "m2"), E("tag", "t1", "m2")>>
     [] name = "fullname" -> <<E("full", "t1", "m1"), E("tag", "t2", "m1")>>
     [] name = "untagged" -> <<E("none", "", "m1"), E("tag", "t1", "m1"), E("none", "", "m2")>>
@@ -192,7 +198,8 @@ Init ==
   /\ files = IF conf.backend = "layout" THEN InitFiles(conf.init) ELSE {}
   /\ marker = (conf.backend = "layout" /\ conf.init # "nodir")
   /\ mu = NONE
-  /\ cache = {}
+  \* conf.warm: the driver looked at every digest first, the cache holds what is stored
+  /\ cache = IF conf.backend = "reg" /\ conf.cache /\ conf.warm THEN InitFiles(conf.init) ELSE {}
   /\ pc = [p \in Procs |-> "idle"]
   /\ cur = [p \in Procs |-> NoOp]
   /\ loc = [p \in Procs |-> IdleLoc]
@@ -226,8 +233,8 @@ RegStart(p, o) ==
        [] o.k \in {"head", "get"} ->
             IF o.m # "" /\ conf.cache /\ o.m \in cache
             THEN \* answered from the manifest cache without a request
-                 /\ UNCHANGED <<pc, cur, cache, loc>>
-                 /\ viol' = Flag(o.m \notin amans, "stale-cache-hit")
+                 \* (a stale answer here needs a stale cache: invariant CacheCoherent)
+                 /\ UNCHANGED <<pc, cur, cache, loc, viol>>
             ELSE /\ Go(p, o, IF o.k = "head" THEN "HEAD" ELSE "GET") /\ UNCHANGED <<cache, loc, viol>>
        [] o.k = "list" ->
             /\ Go(p, o, "LIST")
@@ -419,9 +426,8 @@ LayStep(p) ==
        [] pc[p] = "HSTAT" ->
             \* os.Stat outside the mutex
             LET d == IF loc[p].d \in files THEN loc[p].d ELSE NONE IN
-            /\ NoLin /\ UNCHANGED <<index, files, marker, mu>> /\ Return(p)
-            /\ loc' = [loc EXCEPT ![p] = IdleLoc]
-            /\ viol' = Flag(d \notin loc[p].seen, "read-differs")
+            /\ NoLin /\ UNCHANGED <<index, files, marker, mu, viol>> /\ Return(p)
+            /\ loc' = [loc EXCEPT ![p] = IdleLoc]   \* the answer d is judged by invariant HeadStable
        [] pc[p] = "GREAD" ->
             LET d == IF ~ReadOK THEN NONE
                      ELSE IF o.t # "" THEN IndexGet(index, o.t) ELSE o.m IN
@@ -433,9 +439,8 @@ LayStep(p) ==
                     /\ loc' = [loc EXCEPT ![p] = [@ EXCEPT !.d = d]]
        [] pc[p] = "GFILE" ->
             LET d == IF loc[p].d \in files THEN loc[p].d ELSE NONE IN
-            /\ Free(p) /\ Unlock /\ NoLin /\ UNCHANGED <<index, files, marker>> /\ Return(p)
-            /\ loc' = [loc EXCEPT ![p] = IdleLoc]
-            /\ viol' = Flag(d \notin loc[p].seen, "read-differs")
+            /\ Free(p) /\ Unlock /\ NoLin /\ UNCHANGED <<index, files, marker, viol>> /\ Return(p)
+            /\ loc' = [loc EXCEPT ![p] = IdleLoc]   \* the answer d is judged by invariant GetStable
        [] pc[p] = "LLIST" ->
             LET got == IF ReadOK THEN IndexTags(index) ELSE {}
                 amb == {t \in Tags : aamb[t] # {}} IN
@@ -480,5 +485,15 @@ LayoutGlue == (conf.backend = "layout" /\ (\A p \in Procs : pc[p] \notin
                      /\ atags[t] = NONE <=> Len(Names(index, t)) = 0
                      /\ atags[t] # NONE => Names(index, t)[1].d = atags[t] /\ IndexGet(index, t) = atags[t]
                 /\ files = amans
+\* the answer a layout read is about to give (file there: the digest it resolved, else not found)
+\* is one the reference model gave at some moment since the read was called
+Pending(p) == IF loc[p].d \in files THEN loc[p].d ELSE NONE
+GetStable == \A p \in Procs : pc[p] = "GFILE" => Pending(p) \in loc[p].seen
+\* ManifestHead resolves under the mutex but stats the file outside of it: with three goroutines
+\* (head t ; push t m2 ; mdel m1, t -> m1 before) "not found" is reported for a tag that was
+\* present throughout.  Expected counterexample (C06_mc_headrace.cfg); cannot be imposed on the
+\* real code from outside (no gate inside ManifestHead), so it is recorded as a design-level
+\* observation only.
+HeadStable == \A p \in Procs : pc[p] = "HSTAT" => Pending(p) \in loc[p].seen
 WellFormed == MWellFormed(atags, amans)
 =============================================================================
